@@ -66,8 +66,9 @@ def configs(ctx):
     base = []
     for tag, expr in U.templates(ctx.tier):
         perms = U.operand_perms(expr)
-        if len(perms) > 6:
-            perms = perms[:: len(perms) // 6]
+        cap = 6 if ctx.quick else 24
+        if len(perms) > cap:
+            perms = perms[:: -(-len(perms) // cap)]
         for pi, e in enumerate(perms):
             base.append(("%s/p%d" % (tag, pi), U.decl_for([e]), e))
     for tag, decl, expr in extra_templates():
@@ -85,6 +86,10 @@ def configs(ctx):
                     parts.append({r: ["uniform_occupancy(%s.2)" % L]})
             if len(ranks) >= 2 and not ctx.quick:
                 parts.append({ranks[0]: ["uniform_shape(2)"], ranks[-1]: ["nway_shape(2)", "uniform_shape(1)"]})
+                parts.append({ranks[-1]: ["uniform_shape(2)"], ranks[0]: ["uniform_shape(3)"]})
+                for r in ranks:
+                    parts.append({r: ["uniform_shape(8)", "uniform_shape(4)", "uniform_shape(2)"]})
+                    parts.append({r: ["nway_shape(3)"]})
         for part in parts:
             work.append({"tag": tag, "decl": decl, "expr": expr, "part": part})
     return work
